@@ -120,6 +120,8 @@ def gen_case(rnd, idx):
         opts['hex'] = None
     elif h < 0.8:
         opts['hex'] = rnd.choice(VALID_OFFSETS) if rnd.random() < 0.6 else rnd.choice(VALID_OFFSETS[:4])
+        if rnd.random() < 0.12:
+            opts['hex'] = rnd.choice(['EDGE:0', 'EDGE:0', 'EDGE:-1', 'EDGE:-16'])     # the last offsets that still fit: 2^32 - size - k
     else:
         opts['hex'] = None          # failures decide below
     planted = None
@@ -140,7 +142,7 @@ def gen_case(rnd, idx):
         opts['hex'] = rnd.choice(INVALID_OFFSETS)
         planted = 'option:hex-offset-invalid' if opts['hex'] != '' else 'option:hex-offset-empty'
     elif k < 0.50:
-        opts['hex'] = rnd.choice(WIDE_OFFSETS)
+        opts['hex'] = rnd.choice(WIDE_OFFSETS + ['EDGE:1', 'EDGE:1', 'EDGE:2', 'EDGE:17'])  # EDGE:k = 2^32 - size + k
         planted = 'option:hex-offset-out-of-range'
     elif k < 0.53:
         planted = 'option:missing-input'
@@ -235,6 +237,13 @@ def check_case(c, repo=None):
                 os.chdir(old)
         asm_ok = r is not None and r.status == 'ok'
         nbytes = len(r.bytes) if asm_ok else 0
+        if o['hex'] and o['hex'].startswith('EDGE:'):
+            # an offset on the boundary of what Intel HEX can hold, known only now that the size is known
+            kk = int(o['hex'][5:])
+            vv = (1 << 32) - nbytes + kk
+            o = dict(o, hex=hex(vv) if kk % 2 else str(vv))
+            c = dict(c, opts=o)
+            res['case'] = c
         hclass, hval = classify_offset(o['hex'], nbytes)
         exp_success = input_ok and incs_ok and asm_ok and hclass in ('absent', 'empty', 'valid')
         res['asm_status'] = (r.status + (':' + str(r.exc) if r.status == 'exc' else '')) if r is not None else 'not-run'
